@@ -44,6 +44,14 @@ CHECKS = {
           "all pass groups; every tick must equal the reference next-state function evaluated on pre-edge values.",
           "Trusts vf/ref/rtl_eval.py:tick as the atomic-update semantics.",
           "DESIGN.md 3/C07"),
+  "C02": ("exploration",
+          "property-based testing (Hypothesis): executed block orders recorded with sys.setprofile and judged against bit-level dependencies computed from the harness IR",
+          "For generated designs with explicit U<U constraints every scheduling pass is observed during sim_eval_combinational: each block "
+          "and net block runs exactly once, writers precede readers of overlapping bits (directly and through connections), no block reads "
+          "a bit that is still stale in a second evaluation, explicit constraints are respected, and rings of 2-4 signal-free constraints must "
+          "be rejected by every pass.",
+          "Read/write sets are a static over-approximation from the IR; CL/method-port constraints are not generated in this version.",
+          "DESIGN.md 3/C02"),
 }
 
 NOT_YET = {}
